@@ -107,11 +107,30 @@ class Address(object):
 
 
 class FakeSocket(object):
-    def __init__(self):
+    def __init__(self, fail_errno=None):
         self.sockopts = []
+        self.fail_errno = fail_errno
 
     def setsockopt(self, *a):
+        if self.fail_errno:
+            # e.g. a kernel without CONFIG_TCP_MD5SIG: ENOPROTOOPT
+            raise OSError(self.fail_errno, "Protocol not available")
         self.sockopts.append(a)
+
+
+class PendingTransport(object):
+    """What connector.transport is while the attempt is in progress (in Twisted the client transport
+    object exists, with its socket, as soon as connect() was called)."""
+
+    def __init__(self, connector):
+        self.connector = connector
+        self.connected = 0
+        self.disconnecting = 0
+        self.disconnected = 0
+        self.sock = FakeSocket(connector.reactor.world.cfg.get("sockopt_errno"))
+
+    def getHandle(self):
+        return self.sock
 
 
 class SimTransport(object):
@@ -202,6 +221,7 @@ class SimConnector(object):
             self.factoryStarted = 1
         if self.timeout is not None:
             self.timeoutID = self.reactor.callLater(self.timeout, self._timed_out, kind="connect_timeout")
+        self.transport = PendingTransport(self)
         self.reactor.world.note("connect", self.cid, self.host, self.port, self.timeout)
         self.factory.startedConnecting(self)
 
